@@ -256,6 +256,74 @@ func (a *area) randomScenario(n int) []opSpec {
 	return scn
 }
 
+// cancelFamily: guard-directed scenarios for callers whose context expires while they WAIT inside the
+// cache (waitLoad / waitClose / setClosing behind another closer). One cancellable Get/Remove/
+// RemoveSame plus two ordinary operations on the same id, of which typically one holds the entry in
+// `closing` (TryRemove/GC parked in TryClose, Remove/Close parked in Close) and one is parked on the
+// close channel. Schedules are sampled with a chooser that keeps closers parked in the harness for
+// a while (thread chosen first, harness verdicts down-weighted) so that waiters pile up behind them;
+// the label `t:cancel` is offered whenever the cancellable op is blocked. Not sent to the model.
+func (a *area) cancelFamily(share time.Duration) {
+	r := a.r
+	end := time.Now().Add(share)
+	cancellable := []opSpec{{kind: opRemove, id: 0, ctx: true}, {kind: opGet, id: 0, ctx: true}, {kind: opRemoveSame, id: 0, ctx: true}}
+	others := []opSpec{{kind: opGet, id: 0}, {kind: opRemove, id: 0}, {kind: opRemoveSame, id: 0}, {kind: opTryRemove, id: 0}, {kind: opGC}, {kind: opClose}}
+	var scns [][]opSpec
+	for _, setup := range []string{"get0", "none"} {
+		for _, c := range cancellable {
+			multisets(len(others), 2, func(ix []int) {
+				scns = append(scns, build(setups[setup], []opSpec{others[ix[0]], others[ix[1]], c}))
+			})
+		}
+	}
+	r.CountN("family.cancel.scenarios", len(scns))
+	chooser := func(d int, en []action) int {
+		// weight per action: internal step 4, ctx cancel 4, load verdict 2, Close/TryClose verdict 1 (split over its verdicts)
+		w := make([]int, len(en))
+		tot := 0
+		for i, ac := range en {
+			switch ac.verdict {
+			case "":
+				w[i] = 12
+			case "cancel":
+				w[i] = 12
+			case "ok", "err":
+				w[i] = 3
+			case "ret":
+				w[i] = 3
+			default:
+				w[i] = 1
+			}
+			tot += w[i]
+		}
+		k := r.Intn(tot)
+		for i := range w {
+			if k < w[i] {
+				return i
+			}
+			k -= w[i]
+		}
+		return 0
+	}
+	rounds := 0
+	for time.Now().Before(end) && r.TimeLeft() && !a.stop() {
+		for _, scn := range scns {
+			if !time.Now().Before(end) || a.stop() {
+				break
+			}
+			n := 40
+			if scn[0].kind != opGet || !scn[0].auto { // no setup: fewer interesting waits
+				n = 10
+			}
+			for k := 0; k < n; k++ {
+				a.one(scn, chooser, true, "cancel")
+			}
+		}
+		rounds++
+	}
+	r.CountN("family.cancel.rounds", rounds)
+}
+
 func Run(r *corr.Run) {
 	a := &area{r: r, reported: map[string]bool{}}
 	r.SetRule("a case = one schedule (order of critical sections and of LoadFunc/Close/TryClose completions, with their verdicts) of one scenario (setup + 2..4 concurrent cache operations on 1..2 ids), executed on the real cache under the harness scheduler and on the Lean LTS; non-trivial = at least 4 scheduled steps; distinct = distinct (scenario, schedule)")
@@ -273,6 +341,7 @@ func Run(r *corr.Run) {
 		{family{"3ops-2ids", 2, 3, []string{"get0", "get01"}, true, 50000}, 0.08},
 		{family{"4ops-1id", 1, 4, []string{"none", "get0"}, true, 100000}, 0.07},
 	}
+	a.cancelFamily(time.Duration(float64(total) * 0.15))
 	for _, f := range fams {
 		if !useModel {
 			f.f.prune = false
